@@ -261,7 +261,7 @@ def r2(ctx, find):
 def r3(ctx):
     ctx.rule('C08.R3', 'every path of MessageMap::add that stores a message under its key also raises m_maxIdLength (and '
              'm_maxBroadcastIdLength for broadcast destinations) to the message\'s ID length; only add/remove/clear write '
-             'm_messagesByKey and clear resets the maxima', minimum=3)
+             'm_messagesByKey and clear resets the maxima; each maximum is raised under its own comparison only', minimum=5)
     fb = ctx.fb
     fn = [f for f in fb.fns('ebusd::MessageMap::add') if 'Message *' in f.sig]
     if len(fn) != 1:
@@ -290,6 +290,19 @@ def r3(ctx):
         after = (fn.exit not in fn.reach([sp[0]], cut_blocks=tests - {sp[0]})) if tests else False
         ok = bool(mx) and (before or after)
         ctx.ob('C08.R3', fn, s, ok, 'insert under key', 'maximum ID length maintained on every inserting path: %s' % ok)
+    # each maximum follows its own comparison only: it is raised exactly when the new ID is longer than *that* maximum (the
+    # broadcast one additionally for broadcast destinations); a guard on the other maximum makes the result depend on the
+    # order in which definitions were added
+    for nid, d, rhs, op, lhs in fn.assignments():
+        if d not in ('this.m_maxIdLength', 'this.m_maxBroadcastIdLength') or rhs is None:
+            continue
+        other = 'this.m_maxBroadcastIdLength' if d == 'this.m_maxIdLength' else 'this.m_maxIdLength'
+        atoms = set((a[0], a[1]) for a in fn.atoms(nid))
+        own = ('(%s < %s)' % (d, fn.key(rhs)), True) in atoms or ('(%s <= %s)' % (fn.key(rhs), d), False) in atoms
+        foreign = sorted(k for k, p in atoms if other in k)
+        bc = d == 'this.m_maxIdLength' or any('getDstAddress() == #254' in k and p for k, p in atoms)
+        ctx.ob('C08.R3', fn, nid, own and not foreign and bc, 'update of %s' % d.split('.')[-1],
+               'guarded by its own comparison: %s; guards on the other maximum: %s; broadcast test: %s' % (own, foreign, bc))
     # who writes the map
     writers = set()
     for f in fb.functions:
